@@ -140,10 +140,12 @@ func (g *Gen) closureAxiomAt(name, term, sort, alloc string) {
 	if strings.HasPrefix(inner, "(Array ") {
 		// find key sort of the inner array
 		ks := firstSort(inner[len("(Array "):])
-		g.defs = append(g.defs, fmt.Sprintf("(forall ((r Int) (k %s)) (! (<= %s %s) :pattern ((select (select %s r) k))))", ks, val(fmt.Sprintf("(select (select %s r) k)", term)), alloc, term))
+		g.defs = append(g.defs, fmt.Sprintf("(forall ((r Int) (k %s)) (! (=> (<= r %s) (<= %s %s)) :pattern ((select (select %s r) k))))", ks, alloc, val(fmt.Sprintf("(select (select %s r) k)", term)), alloc, term))
 		return
 	}
-	g.defs = append(g.defs, fmt.Sprintf("(forall ((r Int)) (! (<= %s %s) :pattern ((select %s r))))", val(fmt.Sprintf("(select %s r)", term)), alloc, term))
+	// only objects allocated so far are constrained: what a callee reports about an object it has
+	// freshly allocated (fields of a reference above the old allocation mark) stays consistent
+	g.defs = append(g.defs, fmt.Sprintf("(forall ((r Int)) (! (=> (<= r %s) (<= %s %s)) :pattern ((select %s r))))", alloc, val(fmt.Sprintf("(select %s r)", term)), alloc, term))
 }
 
 // firstSort returns the first sort expression at the start of s.
